@@ -1,4 +1,5 @@
 import Yuiv.Model.C10
+import Yuiv.Model.C10Q
 import Yuiv.Drv.Loop
 /-
 Driver for C10.  Requests (all integers decimal, matrices row-major):
@@ -6,6 +7,10 @@ Driver for C10.  Requests (all integers decimal, matrices row-major):
   chklll m n <A:m·n> <B:m·n> <P:m·m> <Pinv:m·m>   → `t=<0|1> r=<0|1>`   (transformOk, isLLLReduced 3/4)
   runhnf f0 f1 m n <A:m·n>                        → `<H>;<P|->;<Pinv|->` | panic | fuel   (literal model)
   runlll f m n <A:m·n>                            → `<B>;<P|->`          | panic | fuel
+  bookhnf m n <A> | booklll m n <A>               → `ok` if det/lambda equal the recomputed integral Gram–Schmidt data
+                                                     (of P resp. of target) before every iteration of the model, else `mismatch`
+  chkhnfq <g|e> m n <A> <H> <P> <Pinv>            → `t=<0|1> h=<0|1>`   entries `a,b` = a + bθ (θ = i resp. ω)
+  chklllq <g|e> m n <A> <B> <P> <Pinv>            → `t=<0|1> r=<0|1>`   (N(μ) ≤ 1/2, α = 3/4 for g; 3/4, 2/3 for e)
 -/
 namespace Yuiv.Drv.C10
 open Yuiv Yuiv.C10 Yuiv.Drv
@@ -17,6 +22,20 @@ def parseInts (l : List String) : Option (Array Int) :=
 def cut (xs : Array Int) (off m n : Nat) : Mat :=
   mkMat m n fun i j => xs.getD (off + i * n + j) 0
 
+def parsePair? (s : String) : Option (Int × Int) :=
+  match s.splitOn "," with
+  | [a, b] => do let a ← parseInt? a; let b ← parseInt? b; pure (a, b)
+  | _ => none
+
+def parsePairs (l : List String) : Option (Array (Int × Int)) :=
+  l.foldl (init := some #[]) fun acc s => do let a ← acc; let x ← parsePair? s; pure (a.push x)
+
+def cutQ (xs : Array (Int × Int)) (off m n : Nat) : Q.MatQ :=
+  Q.mkMatQ m n fun i j => xs.getD (off + i * n + j) (0, 0)
+
+def kindOf? (s : String) : Option Q.QK :=
+  if s = "g" then some Q.gauss else if s = "e" then some Q.eisen else none
+
 def matTxt (m n : Nat) (A : Mat) : String :=
   let es := (List.range m).flatMap fun i => (List.range n).map fun j => toString (ent A i j)
   String.intercalate " " (toString m :: toString n :: es)
@@ -24,6 +43,17 @@ def matTxt (m n : Nat) (A : Mat) : String :=
 def b01 (b : Bool) : String := if b then "1" else "0"
 
 def fuelMax : Nat := 5000000
+
+def bookReq (hnf : Bool) (m n : String) (rest : List String) : Option String := do
+  let m ← parseNat? m; let n ← parseNat? n
+  let xs ← parseInts rest
+  if xs.size ≠ m * n then none
+  let A := cut xs 0 m n
+  match (if hnf then bookHnf fuelMax m n A else bookLll fuelMax m n A) with
+  | .ok (some _) => some "ok"
+  | .ok none => some "mismatch"
+  | .panic => some "panic"
+  | .err => some "fuel"
 
 def handle (t : List String) : String :=
   let r : Option String :=
@@ -42,6 +72,25 @@ def handle (t : List String) : String :=
         let A := cut xs 0 m n; let B := cut xs (m*n) m n
         let P := cut xs (2*m*n) m m; let Pinv := cut xs (2*m*n + m*m) m m
         some s!"t={b01 (transformOk m n A B P Pinv)} r={b01 (isLLLReduced m n B alphaZ.1 alphaZ.2)}"
+    | "bookhnf" :: m :: n :: rest => bookReq true m n rest
+    | "booklll" :: m :: n :: rest => bookReq false m n rest
+    | "chkhnfq" :: kd :: m :: n :: rest => do
+        let k ← kindOf? kd
+        let m ← parseNat? m; let n ← parseNat? n
+        let xs ← parsePairs rest
+        if xs.size ≠ 2 * m * n + 2 * m * m then none
+        let A := cutQ xs 0 m n; let H := cutQ xs (m*n) m n
+        let P := cutQ xs (2*m*n) m m; let Pinv := cutQ xs (2*m*n + m*m) m m
+        some s!"t={b01 (Q.transformOkQ k m n A H P Pinv)} h={b01 (Q.isHnfQ k m n H)}"
+    | "chklllq" :: kd :: m :: n :: rest => do
+        let k ← kindOf? kd
+        let m ← parseNat? m; let n ← parseNat? n
+        let xs ← parsePairs rest
+        if xs.size ≠ 2 * m * n + 2 * m * m then none
+        let A := cutQ xs 0 m n; let B := cutQ xs (m*n) m n
+        let P := cutQ xs (2*m*n) m m; let Pinv := cutQ xs (2*m*n + m*m) m m
+        let (p, q, rp, rq) : Int × Int × Int × Int := if kd = "g" then (3, 4, 1, 2) else (2, 3, 3, 4)
+        some s!"t={b01 (Q.transformOkQ k m n A B P Pinv)} r={b01 (Q.isLLLReducedQ k m n B p q rp rq)}"
     | "runhnf" :: f0 :: f1 :: m :: n :: rest => do
         let f0 ← parseNat? f0; let f1 ← parseNat? f1
         let m ← parseNat? m; let n ← parseNat? n
